@@ -396,6 +396,10 @@ static void atom_defs(Var v, std::vector<z3::expr>& out) {
     } break;
     case V_INT:   // n <= x < n+1  (floor)
       out.push_back(z3::to_real(z) <= z_of(vi.args[0]) && z_of(vi.args[0]) < z3::to_real(z) + 1); break;
+    case V_UF:    // ranges of the inverse trigonometric functions (a slightly wider rational enclosure of pi is used)
+      if (vi.uf == "acos") { out.push_back(z >= 0 && z <= e.ctx.real_val("3141592653589794/1000000000000000")); }
+      else if (vi.uf == "asin") { out.push_back(z >= e.ctx.real_val("-1570796326794897/1000000000000000") && z <= e.ctx.real_val("1570796326794897/1000000000000000")); }
+      break;
     default: break;
   }
 }
@@ -450,6 +454,37 @@ static SymReal sqrt_const(const mpq_class& c) {
 
 // ---- numeric evaluation of constants that contain radicals (512-bit floats) --------------------
 static bool eval_const(const Poly& p, mpf_class& out, int depth = 0);
+// 512-bit elementary functions for constants that contain angle / sine / cosine atoms of constant arguments
+static mpf_class mp_atan_small(const mpf_class& t) {        // |t| <= 2^-8: alternating series
+  mpf_class sum(0, 640), pw(t, 640), t2(t * t, 640), lim(1, 640); lim >>= 560;
+  for (unsigned long n = 0; n < 4000; n++) { mpf_class term(pw / (2 * n + 1), 640); if (n & 1) sum -= term; else sum += term; pw *= t2; if (abs(pw) < lim) break; }
+  return sum;
+}
+static mpf_class mp_atan(mpf_class t) {
+  bool neg = t < 0; if (neg) t = -t;
+  mpf_class one(1, 640), small(1, 640); small >>= 8;
+  int k = 0; mpf_class u(t, 640);
+  bool inv = u > 1; if (inv) u = one / u;
+  while (u > small) { u = u / (one + sqrt(one + u * u)); k++; }
+  mpf_class r = mp_atan_small(u); r <<= k;
+  if (inv) { static mpf_class half_pi(0, 640); static bool have = false; if (!have) { mpf_class a(1, 640), b(1, 640); a /= 5; b /= 239; half_pi = (mp_atan_small(a) * 16 - mp_atan_small(b) * 4) / 2; have = true; } r = half_pi - r; }
+  return neg ? mpf_class(-r) : r;
+}
+static const mpf_class& mp_pi() { static mpf_class pi(0, 640); static bool have = false; if (!have) { mpf_class a(1, 640), b(1, 640); a /= 5; b /= 239; pi = mp_atan_small(a) * 16 - mp_atan_small(b) * 4; have = true; } return pi; }
+static bool mp_atan2(const mpf_class& y, const mpf_class& x, mpf_class& out) {
+  if (x == 0 && y == 0) return false;
+  if (x == 0) { out = mp_pi() / 2; if (y < 0) out = -out; return true; }
+  mpf_class q(y / x, 640); mpf_class a = mp_atan(q);
+  if (x > 0) out = a; else if (y >= 0) out = a + mp_pi(); else out = a - mp_pi();
+  return true;
+}
+static void mp_sincos(mpf_class a_in, mpf_class& s, mpf_class& c) {
+  mpf_class a(a_in, 640);
+  mpf_class two_pi(mp_pi() * 2, 640); mpf_class k(0, 640); k = floor(a / two_pi + mpf_class(0.5, 640)); { mpf_class a2(a, 640); a2 -= k * two_pi; a = a2; }      // |a| <= pi
+  mpf_class sa(0, 640), ca(1, 640), term(1, 640), lim(1, 640); lim >>= 560;
+  for (unsigned long n = 1; n < 2000; n++) { term = term * a / n; switch (n & 3) { case 1: sa += term; break; case 2: ca -= term; break; case 3: sa -= term; break; default: ca += term; } if (n > 8 && abs(term) < lim) break; }
+  s = sa; c = ca;
+}
 static bool eval_var(Var v, mpf_class& out, int depth) {
   const VarInfo& vi = E().vars[v];
   if (depth > 40) return false;
@@ -460,6 +495,17 @@ static bool eval_var(Var v, mpf_class& out, int depth) {
     case V_QUOT: if (!eval_const(vi.args[0], a, depth + 1) || !eval_const(vi.args[1], b, depth + 1) || b == 0) return false; out = a / b; return true;
     case V_MAX:  if (!eval_const(vi.args[0], a, depth + 1) || !eval_const(vi.args[1], b, depth + 1)) return false; out = a > b ? a : b; return true;
     case V_MIN:  if (!eval_const(vi.args[0], a, depth + 1) || !eval_const(vi.args[1], b, depth + 1)) return false; out = a < b ? a : b; return true;
+    case V_ANGLE: if (!eval_const(vi.args[0], a, depth + 1) || !eval_const(vi.args[1], b, depth + 1)) return false; return mp_atan2(a, b, out);
+    case V_SIN:  if (!eval_const(vi.args[0], a, depth + 1)) return false; { mpf_class s_(0, 640), c_(0, 640); mp_sincos(a, s_, c_); out = s_; } return true;
+    case V_COS:  if (!eval_const(vi.args[0], a, depth + 1)) return false; { mpf_class s_(0, 640), c_(0, 640); mp_sincos(a, s_, c_); out = c_; } return true;
+    case V_UF:
+      if ((vi.uf == "acos" || vi.uf == "asin") && vi.args.size() == 1) {
+        if (!eval_const(vi.args[0], a, depth + 1) || a > 1 || a < -1) return false;
+        mpf_class t(a, 640), one(1, 640); mpf_class c2(sqrt(one - t * t), 640);
+        if (c2 == 0 && t == 0) return false;
+        return vi.uf == "acos" ? mp_atan2(c2, t, out) : mp_atan2(t, c2, out);
+      }
+      return false;
     default: return false;
   }
 }
@@ -874,6 +920,7 @@ static bool decide(const Poly& p, Rel rel) {
   bool take;
   if (canT && canF) {
     e.path_symbolic = true;
+    if (getenv("SX_TRACE")) fprintf(stderr, "[fork] const=%d %s\n", (int)p_is_const(p), p_show(p, 300).c_str());
     take = fork_point(2, nullptr) == 0;
   } else if (canT) take = true;
   else if (canF) take = false;
